@@ -297,6 +297,8 @@ pub struct RecStream {
     pub fail_all_from: u64,
     /// ... and stops applying at this entry ordinal (an outage that ends): later entries succeed again
     pub fail_all_until: u64,
+    /// fault: the stream itself panics inside `next` for the entry with this ordinal (user code on the writer thread)
+    pub panic_at_entry: Option<u64>,
     /// called inside every entry's `next` with the index of that call (a stream that itself uses
     /// the sink it serves); filled in by the scenario once the sink exists
     pub on_entry_next: Callback<u64>,
@@ -336,6 +338,7 @@ impl RecStream {
                 fail_all: None,
                 fail_all_from: 0,
                 fail_all_until: u64::MAX,
+                panic_at_entry: None,
                 on_entry_next: Callback::default(),
                 install_subscriber_at: None,
                 next_calls: 0,
@@ -412,6 +415,10 @@ impl EntryIoStream for RecStream {
         }
         if self.yields {
             detsim::yield_point();
+        }
+        if !seen.report && self.panic_at_entry == Some(self.ctl.entry_nexts_done.load(Ordering::SeqCst)) {
+            self.ctl.hist.log(K::Note(format!("stream_panicked:{}", self.ctl.stream_no)));
+            std::panic::panic_any("harness: the output stream panics");
         }
         let res = if seen.report {
             self.report_res
